@@ -11,7 +11,9 @@ import (
 	common2 "github.com/elastos/Elastos.ELA/core/types/common"
 )
 
-func nontrivial(t []string, out string) bool { return t[0] == "recheck" || t[0] == "fladd" }
+func nontrivial(t []string, out string) bool {
+	return t[0] == "recheck" || t[0] == "fladd" || t[0] == "rcflow"
+}
 
 func bucket(t []string, out string) string {
 	f := strings.Fields(out)
@@ -528,7 +530,28 @@ func genFL(g *hx.Gen, r *hx.Rand) {
 	}
 }
 
+// the real chain: every combination of held / mined / third producer transaction kinds
+func genRealChain(g *hx.Gen) {
+	kinds := []string{"upd", "updn", "can"}
+	n := 0
+	for _, held := range kinds {
+		for _, blk := range append([]string{"-"}, kinds...) {
+			for _, third := range append([]string{"-"}, kinds...) {
+				for _, mineHeld := range []int{0, 1} {
+					n++
+					if g.Quick() && n%12 != int(g.Seed%12) { // a twelfth of the grid per quick run (the corpus adds the two witnesses), all of it in thorough
+						continue
+					}
+					g.Emit("reset")
+					g.Emit("rcflow %s %s %s %d", held, blk, third, mineHeld)
+				}
+			}
+		}
+	}
+}
+
 func gen(g *hx.Gen) {
+	genRealChain(g)
 	nh := g.N(120, 1500)
 	for i := 0; i < nh; i++ {
 		genHistory(g, g.R.Fork(uint64(i)))
